@@ -22,7 +22,11 @@ Interpreter::Evaluate(const std::string& expr, const Syntax syntaxHint) {
   if (!auditor.CheckType(*ast)) {
     return std::nullopt;
   } else {
-    ast->Normalize(astContext);
+    if (!ast->Normalize(astContext)) {
+      // Note: substitution of term-functions produced a tree that is nested too deep for the recursive evaluation
+      parser.log.LogError(Error{ static_cast<uint32_t>(ParseEID::syntax), 0 });
+      return std::nullopt;
+    }
     return interpreter.Evaluate(*ast);
   }
 }
